@@ -361,6 +361,15 @@ def check_property(prop, tier, seed, jobs, verbose):
             bounded_recs.append({"name": f"native run of {kk[0]} against its contract", "cases": res.get("cases", 0),
                                  "bound": "generator scope in contracts/gens.py", "status": res.get("status")})
 
+    # ---- thorough tier: detection self-test (informational, never changes the verdict) ----------------------
+    self_test = []
+    if tier == "thorough" and not viol_lines and not checker_errors and not exit_undecided \
+            and not os.environ.get("PYVC_NO_SELFTEST"):
+        self_test = run_self_test(prop, jobs)
+        for r in self_test:
+            if not r.get("as_expected", True):
+                print(f"NOTE: self-test {r['id']}: expected {r['expected']}, the quick check of the changed tree exited {r['exit']}")
+
     # ---- evidence -----------------------------------------------------------------------------------
     wall = round(time.time() - t_start, 2)
     level = "proof"
@@ -394,6 +403,13 @@ def check_property(prop, tier, seed, jobs, verbose):
         "source_sha256": repo.sha,
         "checker_errors": checker_errors,
     }
+    if self_test:
+        coverage["self_test"] = {
+            "what": "each change kept under /verif/seeded (breaks this property, keeps the repository's tests green) and each "
+                    "behaviour-preserving edit under /verif/selftest/refactorings is applied to a scratch copy of the "
+                    "CURRENT tree and the quick check of this property is run on it; expected: VIOLATION (exit 1) for the "
+                    "former, no alarm (exit 0, or 2 = undecided) for the latter; informational",
+            "runs": self_test}
     if level != "proof":
         coverage["evaluations"] = max(1, obligations + sum(b.get("cases", 0) or 0 for b in bounded_recs))
         coverage["distinct_nontrivial"] = max(2, discharged + sum(b.get("cases", 0) or 0 for b in bounded_recs))
@@ -428,6 +444,42 @@ def check_property(prop, tier, seed, jobs, verbose):
         print("CHECKER-ERROR: no obligations and no bounded stand-in for this property")
         return 3
     return 0
+
+
+def run_self_test(prop, jobs):
+    import glob
+    import shutil
+    import tempfile
+    from concurrent.futures import ThreadPoolExecutor
+    items = [(d, "violation") for d in sorted(glob.glob(os.path.join(HERE, "seeded", prop + "-*")))] + \
+            [(d, "held") for d in sorted(glob.glob(os.path.join(HERE, "selftest", "refactorings", prop + "-*")))]
+
+    def one(item):
+        d, expected = item
+        scratch = tempfile.mkdtemp(prefix="pyvc-selftest-")
+        outdir = tempfile.mkdtemp(prefix="pyvc-selftest-out-")
+        rec = {"id": os.path.basename(d), "expected": expected}
+        try:
+            subprocess.run(["rsync", "-a", "--exclude", ".git", "--exclude", "__pycache__", REPO.rstrip("/") + "/", scratch + "/"],
+                           check=True, capture_output=True)
+            a = subprocess.run(["git", "apply", os.path.join(d, "patch.diff")], cwd=scratch, capture_output=True, text=True)
+            if a.returncode != 0:
+                rec.update(skipped="patch does not apply to the current tree")
+                return rec
+            t0 = time.time()
+            c = subprocess.run([sys.executable, os.path.join(HERE, "check.py"), "--property", prop, "--tier", "quick",
+                                "--jobs", str(max(2, jobs // 3))],
+                               env=dict(os.environ, PYVC_REPO=scratch, PYVC_OUT=outdir), capture_output=True, text=True)
+            first = next((ln for ln in c.stdout.splitlines() if ln.startswith(("VIOLATION", "UNDECIDED", "CHECKER"))), "")
+            rec.update(exit=c.returncode, seconds=round(time.time() - t0, 1), first_line=first[:200].replace(outdir, "<out>"),
+                       as_expected=(c.returncode == 1) if expected == "violation" else (c.returncode in (0, 2)))
+            return rec
+        finally:
+            shutil.rmtree(scratch, ignore_errors=True)
+            shutil.rmtree(outdir, ignore_errors=True)
+
+    with ThreadPoolExecutor(max_workers=3) as tp:
+        return list(tp.map(one, items))
 
 
 def match_known(known, prop, obligation, res):
